@@ -151,6 +151,9 @@ pub struct WitnessSpec {
     /// an equal commitment)
     #[serde(default)]
     pub same_as_prev: Vec<usize>,
+    /// openings (not adjacent to it) that repeat opening 0 exactly: equal commitments at non-adjacent positions
+    #[serde(default)]
+    pub same_as_first: Vec<usize>,
     /// one blinding factor (opening j, position k) with a special value: 0 zero, 1 one, 2 minus one,
     /// 3 the opening's value as a scalar, 4 the recovery seed (if any), 5 equal to blinding (0, 0)
     #[serde(default)]
@@ -166,6 +169,9 @@ impl WitnessSpec {
         let mut j = j;
         while j > 0 && self.same_as_prev.contains(&j) {
             j -= 1;
+        }
+        if self.same_as_first.contains(&j) {
+            j = 0;
         }
         if self.zero_blind.contains(&j) {
             return Scalar::ZERO;
@@ -268,6 +274,28 @@ impl WitnessSpec {
         match rng.below(16) {
             0 => promises.iter_mut().for_each(|p| *p = None),
             1 => promises.iter_mut().for_each(|p| *p = Some(0)),
+            // the only promise of an aggregate sits at its last position
+            2 if cfg.m >= 2 => {
+                promises.iter_mut().for_each(|p| *p = None);
+                let last = cfg.m - 1;
+                promises[last] = Some(values[last] - values[last] / 3);
+            },
+            // value zero everywhere
+            3 => {
+                values.iter_mut().for_each(|v| *v = 0);
+                promises.iter_mut().for_each(|p| {
+                    if p.is_some() {
+                        *p = Some(0)
+                    }
+                });
+            },
+            // equal values at non-adjacent positions (commitments differ through the blinding factors)
+            4 if cfg.m >= 3 => {
+                for j in (2..cfg.m).step_by(2) {
+                    values[j] = values[0];
+                    promises[j] = promises[0];
+                }
+            },
             _ => {},
         }
         // boundary at 64 bits: promises of one aggregate that add up to exactly 2^64
@@ -308,6 +336,16 @@ impl WitnessSpec {
                 same_as_prev.push(j);
             }
         }
+        // boundary: an opening that repeats opening 0 from a non-adjacent position
+        let mut same_as_first = Vec::new();
+        if cfg.m >= 3 && rng.chance(1, 12) {
+            let j = rng.range(2, cfg.m as u64 - 1) as usize;
+            if !zero_blind.contains(&j) && !zero_blind.contains(&0) && !same_as_prev.contains(&j) && !same_as_prev.contains(&(j + 1).min(cfg.m - 1)) {
+                values[j] = values[0];
+                promises[j] = promises[0];
+                same_as_first.push(j);
+            }
+        }
         WitnessSpec {
             values,
             promises,
@@ -315,6 +353,7 @@ impl WitnessSpec {
             seed_nonce,
             zero_blind,
             same_as_prev,
+            same_as_first,
             special_blind: if rng.chance(1, 8) { Some((rng.usize_below(cfg.m), rng.usize_below(cfg.ext), rng.below(6) as u8)) } else { None },
         }
     }
@@ -384,6 +423,67 @@ pub fn build_with_params<G: Group>(params: RangeParameters<G>, cfg: &Config, w: 
 
 pub fn build<G: Group>(cfg: &Config, w: &WitnessSpec) -> Built<G> {
     build_with_params(std_params::<G>(cfg.bits, cfg.cap, cfg.ext), cfg, w)
+}
+
+/// Caller-supplied, well-formed Pedersen generators (every cached compressed form is the encoding of its
+/// point) with a legal but unusual relationship between them. Variant 0 = the standard generators (None).
+pub fn related_pedersen<G: Group>(ext: usize, variant: u8, bits: usize) -> Option<PedersenGens<G>> {
+    use tari_bulletproofs_plus::traits::Compressable;
+    if variant == 0 {
+        return None;
+    }
+    let mut pc = G::pedersen(ext);
+    let set_g = |pc: &mut PedersenGens<G>, k: usize, p: G| {
+        pc.g_base_compressed_vec[k] = p.compress();
+        pc.g_base_vec[k] = p;
+    };
+    let set_h = |pc: &mut PedersenGens<G>, p: G| {
+        pc.h_base_compressed = p.compress();
+        pc.h_base = p;
+    };
+    match variant {
+        // two blinding generators coincide
+        1 if ext >= 2 => {
+            let p = pc.g_base_vec[0].clone();
+            set_g(&mut pc, ext - 1, p);
+        },
+        // one blinding generator is twice another
+        2 if ext >= 2 => {
+            let p = G::scale(&pc.g_base_vec[0], &Scalar::from(2u64));
+            set_g(&mut pc, ext - 1, p);
+        },
+        // a blinding generator is the first vector generator of party 0
+        4 => {
+            let std = std_params::<G>(bits, 1, ext);
+            let p = std.gi_base_iter().next().cloned().expect("vector generator");
+            set_g(&mut pc, ext - 1, p);
+        },
+        // the value generator is the first H vector generator of party 0
+        5 => {
+            let std = std_params::<G>(bits, 1, ext);
+            let p = std.hi_base_iter().next().cloned().expect("vector generator");
+            set_h(&mut pc, p);
+        },
+        // a blinding generator is the first G vector generator of party 1 (unused by a single commitment,
+        // present in every parameter set of capacity >= 2)
+        6 => {
+            let std = std_params::<G>(bits, 4, ext);
+            let p = std.gi_base_iter().nth(bits).cloned().expect("vector generator");
+            set_g(&mut pc, ext - 1, p);
+        },
+        // the value generator is the first H vector generator of party 3
+        7 => {
+            let std = std_params::<G>(bits, 4, ext);
+            let p = std.hi_base_iter().nth(3 * bits).cloned().expect("vector generator");
+            set_h(&mut pc, p);
+        },
+        // the value generator is the negative of the first blinding generator
+        _ => {
+            let p = G::scale(&pc.g_base_vec[0], &-Scalar::ONE);
+            set_h(&mut pc, p);
+        },
+    }
+    Some(pc)
 }
 
 pub fn custom_params<G: Group>(bits: usize, cap: usize, pc: PedersenGens<G>) -> RangeParameters<G> {
